@@ -43,7 +43,9 @@ def h_ser(L, T, parts):
         L.fail('serialized string differs in length from to_string()')
         return 'accepted'
     L.check('serialized string == to_string()', bytes_eq_term(txt, disp))
-    L.expect_native(req, {'de': {'ok': {'disp': SymStr(disp)}}, 'ser': SymStr(json_string(disp)), 'ser_is_display': True, 'same_as_from_str': True})
+    # (the JSON text of the serialised value may need JSON escapes, e.g. for a decoded backslash: the oracle compares it with
+    #  serde_json's rendering of to_string() itself)
+    L.expect_native(req, {'de': {'ok': {'disp': SymStr(disp)}}, 'ser_is_display': True, 'same_as_from_str': True})
     return 'accepted'
 
 
